@@ -163,8 +163,16 @@ impl DocumentBlock {
 
     pub fn append_inline(&mut self, inline: DocumentInline, line_range: LineRange) {
         match self {
-            DocumentBlock::Plain(plain) => plain.inlines.push(inline),
-            DocumentBlock::Para(para) => para.inlines.push(inline),
+            // the text of a tight list item is opened with the range of its first inline only:
+            // the block covers every line its inlines stand on
+            DocumentBlock::Plain(plain) => {
+                plain.line_range.end = plain.line_range.end.max(line_range.end);
+                plain.inlines.push(inline)
+            }
+            DocumentBlock::Para(para) => {
+                para.line_range.end = para.line_range.end.max(line_range.end);
+                para.inlines.push(inline)
+            }
             DocumentBlock::CodeBlock(_) => {}
             DocumentBlock::RawBlock(_) => {}
             DocumentBlock::BlockQuote(block_quote) => {
